@@ -305,6 +305,8 @@ def run(ctx):
     from plotink import plot_utils
     mon = install(ctx)
     rng = ctx.rng
+    from .. import longrun
+    _early = longrun.Early()
     if plot_utils.PX_PER_INCH != 96.0:
         ctx.violation("px per inch constant", {"fn": "PX_PER_INCH", "got": plot_utils.PX_PER_INCH})
     n = ctx.budget(60_000, 1_000_000)
@@ -325,6 +327,7 @@ def run(ctx):
         ctx.sample({"text": text, "numeral": num, "unit": unit}, tag=cls, per_tag=1)
         attr, siblings = gen_siblings(rng)
         one_case(ctx, mon, cls, text, num, unit, ref, default, attr, siblings)
+        _early.remember((cls, text, num, unit, ref, default))
         done += 1
         # history: the next strings share the numeral (other unit), the unit (numeral +- a little) or
         # everything but the reference with the previous one
@@ -343,6 +346,14 @@ def run(ctx):
                 ctx.case(["history: related arguments after a previous call", "history kind %d" % k],
                          (text2, ref2, default2, "after", text))
                 one_case(ctx, mon, "history", text2, num2, unit2, ref2, default2)
+    # long memory: 100000+ distinct length texts (raw), then the first cases of the run once more
+    UNITS_ = ("mm", "in", "px", "pt", "cm", "pc", "Q", "%", "")
+    for fname, mk in (("parseLengthWithUnits", lambda k: ("%d.%d%s" % (k, k % 10, UNITS_[k % 9]),)),
+                      ("unitsToUserUnits", lambda k: ("%d.%d%s" % (k, k % 7, UNITS_[k % 9]), 100 + k % 3)),
+                      ("userUnitToUnits", lambda k: (float(k) + 0.5, UNITS_[k % 8]))):
+        longrun.churn_then_replay(ctx, plot_utils, fname, mk, _early if fname == "userUnitToUnits" else longrun.Early(0),
+                                  lambda it: one_case(ctx, mon, *it), n_quick=60_000, n_thorough=140_000)
+    ctx.need("history: asked again after many other distinct requests", 30)
     # None input
     if plot_utils.parseLengthWithUnits(None) != (None, None) or \
             plot_utils.userUnitToUnits(None, "mm") is not None:
